@@ -43,7 +43,7 @@ def in_window(pos):
 
 
 def keys(seed, chain='x'):
-    names = ['root', 'outsider'] + ['d%d' % i for i in range(1, 12)]
+    names = ['root', 'outsider'] + ['d%d' % i for i in range(1, 16)]
     sk = {n: env.sym(seed, 'c14.%s.%s' % (chain, n)) for n in names}
     return sk, {n: refed.public_key(v) for n, v in sk.items()}
 
@@ -357,9 +357,9 @@ def cert_case(ctx, begin):
 
 def blocks(tier, seed):
     q = tier == 'quick'
-    maxlen = 4 if q else 8
+    maxlen = 4 if q else 12
     singles = [(p, c, s) for p in WINDOW for c in (True, False) for s in SIGNERS]
-    cc = chain_cases(maxlen, 3 if q else 4)
+    cc = chain_cases(maxlen, 3 if q else 5)
     return [
         Block('single_lock_product', singles, single_case,
               'window position x may-delegate x certificate signer x clock slack {58..61} x final signer x 5 flag/allowed pairs; all '
@@ -367,7 +367,7 @@ def blocks(tier, seed):
         Block('chain_lock_deviations', cc, chain_case,
               'chain lengths 1..%d: all-good, every single-link deviation at every position, all pairs for length <= 3' % maxlen,
               nshards=min(len(cc), 128)),
-        Block('chain_splices_orders_markers', list(range(1, (4 if q else 5) + 1)), splice_case,
+        Block('chain_splices_orders_markers', list(range(1, (4 if q else 6) + 1)), splice_case,
               'cross-chain splices, all certificate orders, all marker patterns, prefix chains', nshards=8),
         Block('custom_slack_threshold', [(n, thr) for n in range(0, 4 if q else 6) for thr in (10, 300, 61, 0, -1)], threshold_case,
               'single and chain locks (length 1..%d) through run_script with additional_flags ts_threshold in {10, 61, 300, 0, -1} x clock '
@@ -383,7 +383,7 @@ def meta(tier, seed):
         rule='products of per-link settings executed through the real builders and run_auth_scripts with a pinned virtual clock; two '
              'oracles (delegation model from the statement, ref.refvm on the same bytes)',
         states_meaning='distinct (lock kind, per-link settings, clock, signer, flags) cases; transitions = scripts run',
-        bounds={'chain_length': 4 if q else 8, 'slack_threshold': THR},
+        bounds={'chain_length': 4 if q else 12, 'slack_threshold': THR},
         assumptions=['run_auth_scripts cannot change ts_threshold: the default slack 60 is used',
                      'Ed25519 unforgeability for the rejection direction'],
     )
